@@ -1,2 +1,5 @@
 pub mod cjson;
 pub mod idgen;
+pub mod hash;
+pub mod redact;
+pub mod pdu;
